@@ -24,15 +24,33 @@ def seed_to_poly(v: dict):
 SPELLINGS = ("operator", "numpy", "numpoly")
 
 
-def run_ring_program(prog, tid: str, prop: str, variant: int = 0) -> dict:
+CONFIG_BOOLS = ("retain_names", "retain_coefficients", "sort_graded", "sort_reverse")
+CONFIG_DTYPES = ("int32", "float32", "int64", "complex64", "int8", "float64", "int16", "complex128")
+
+
+def ring_config(variant: int):
+    """C15: the (option setting, coefficient dtype) a bounded-model program is replayed under.  The 16 settings of
+    the four semantic options and the coefficient dtypes rotate so that consecutive programs meet all of them."""
+    combo = variant + variant // 128
+    kw = {name: bool((combo >> i) & 1) for i, name in enumerate(CONFIG_BOOLS)}
+    return kw, CONFIG_DTYPES[(combo >> 4) % len(CONFIG_DTYPES)]
+
+
+def run_ring_program(prog, tid: str, prop: str, variant: int = 0, configs: bool = False) -> dict:
     """Execute one MC_Ring program.  `variant` rotates spellings (carriers are
-    parameters the specification ignores and the harness honours)."""
+    parameters the specification ignores and the harness honours).  With `configs`
+    the program runs under a rotating option setting and coefficient dtype (C15)."""
     reset_options()
     rec = Recorder(tid, prop)
+    dtype = "int64"
+    if configs:
+        kw, dtype = ring_config(variant)
+        rec.do("set_options", [], keep=False, kw=kw, bad=[], prop="C14")
     regs = []
     for n, ins in enumerate(prog):
         if ins["op"] == "seed":
-            regs.append(rec.new(seed_to_poly(ins["v"]), note="seed"))
+            v = dict(ins["v"], dtype=dtype)
+            regs.append(rec.new(seed_to_poly(v), note="seed"))
         else:
             sp = SPELLINGS[(variant + n) % 3]
             new = rec.do("arith", [regs[ins["a"] - 1], regs[ins["b"] - 1]], op=ins["op"], spelling=sp)
